@@ -38,7 +38,7 @@ var stdQueries = []Query{
 const qAll = 6
 
 func probeNames() []string {
-	return []string{"seq", "neg-midbulk", "fetch-stale-blocks", "handover", "retry-append", "range-clamp", "suicided-proxy"}
+	return []string{"seq", "neg-midbulk", "fetch-stale-blocks", "handover", "retry-append", "range-clamp", "suicided-proxy", "getlids-overlap"}
 }
 
 func probeInput(name string) *Input {
@@ -82,6 +82,13 @@ func probeInput(name string) *Input {
 		return &Input{Bulks: [][][]Doc{{{d1}, {d3}}}, Queries: stdQueries, Labels: cat(rep(w, 11), rep(w, 10),
 			[]Label{{K: "Snap", T: 0}, {K: "SB", T: 0, J: 0, Q: 0}}, rep(Label{K: "R", T: 0}, 4),
 			[]Label{{K: "FB", T: 0, J: 0, IDs: [][2]uint64{{40, 3}}}, {K: "R", T: 0}})}
+	case "getlids-overlap":
+		// two readers of the same token overlap inside TokenLIDs.GetLIDs while the writer's LIDs are still queued
+		// (no writer mid-bulk): both must see every acknowledged document
+		return &Input{Bulks: [][][]Doc{{{d1, d3}}}, Queries: stdQueries, Labels: cat(rep(w, 12),
+			[]Label{{K: "Snap", T: 0}, {K: "SB", T: 0, J: 0, Q: 0}}, rep(Label{K: "R", T: 0}, 3),
+			[]Label{{K: "Snap", T: 1}, {K: "SB", T: 1, J: 0, Q: 0}}, rep(Label{K: "R", T: 1}, 3),
+			[]Label{{K: "R", T: 0, P: 1}, {K: "R", T: 1}})}
 	case "suicided-proxy":
 		// a reader still holds the proxy of a fraction that retention deletes before it was sealed
 		return &Input{Bulks: [][][]Doc{{{d1}}}, Queries: stdQueries, Labels: cat(rep(w, 11),
